@@ -1,3 +1,269 @@
-import StirVerif.C10.Model
+/-
+C10 — "Image files round-trip voxel positions, values and exam information".
+Property theorems over the model of `Model.lean`; proofs in `Proofs*.lean`.  All statements are for every index
+range, origin, voxel size, array content and length, integer width, given scale factor and exam information
+(no bounds).  Clauses of the property that the code as it stands violates are stated as `…_fails` theorems
+(general, plus concrete witnesses) next to the `…_partial` theorem that excludes exactly those inputs.
+-/
+import StirVerif.C10.ProofsGeom
+import StirVerif.C10.ProofsWrite
+import StirVerif.C10.ProofsExam
+
 namespace StirVerif.C10
+
+/-! ## Positions -/
+
+/-- "Writing an image to file and reading it back preserves, for every voxel, its physical position … for all index
+    ranges, origins, voxel sizes": when the header numbers are printed exactly, the `k`-th voxel (per axis, counted
+    from the first) of the image read back is where the `k`-th voxel of the original was — although the reader
+    re-normalises the index range and recomputes the origin. -/
+theorem C10_position_preserved_exact (g : Geom) (k : V3 Int) :
+    posOfOffset (readGeom (writeHeader id g)) k = posOfOffset g k :=
+  position_preserved_exact g k
+
+/-- … with an explicit error bound otherwise: for any formatting `fmt` of the header numbers the position error is at
+    most the error of the printed first pixel offset plus `|k|` times the error of the printed voxel size, per axis. -/
+theorem C10_position_preserved_fmt (fmt : Rat → Rat) (g : Geom) (k : V3 Int) :
+    |(posOfOffset (readGeom (writeHeader fmt g)) k).z - (posOfOffset g k).z|
+        ≤ |fmt (firstPixelOffset g.voxel.z g.minI.z g.origin.z) - firstPixelOffset g.voxel.z g.minI.z g.origin.z|
+          + |(k.z : Rat)| * |fmt g.voxel.z - g.voxel.z| ∧
+    |(posOfOffset (readGeom (writeHeader fmt g)) k).y - (posOfOffset g k).y|
+        ≤ |fmt (firstPixelOffset g.voxel.y g.minI.y g.origin.y) - firstPixelOffset g.voxel.y g.minI.y g.origin.y|
+          + |(k.y : Rat)| * |fmt g.voxel.y - g.voxel.y| ∧
+    |(posOfOffset (readGeom (writeHeader fmt g)) k).x - (posOfOffset g k).x|
+        ≤ |fmt (firstPixelOffset g.voxel.x g.minI.x g.origin.x) - firstPixelOffset g.voxel.x g.minI.x g.origin.x|
+          + |(k.x : Rat)| * |fmt g.voxel.x - g.voxel.x| :=
+  position_preserved_fmt fmt g k
+
+/-- … in particular, if printing has relative error at most `ε` (`ε = 5·10⁻⁶` for 6 significant digits), the position
+    error of voxel `k` is at most `ε (|first pixel offset| + |k| |voxel size|)`. -/
+theorem C10_position_preserved_rel (fmt : Rat → Rat) (ε : Rat) (hf : ∀ x, |fmt x - x| ≤ ε * |x|) (g : Geom) (k : V3 Int) :
+    |(posOfOffset (readGeom (writeHeader fmt g)) k).z - (posOfOffset g k).z|
+        ≤ ε * (|firstPixelOffset g.voxel.z g.minI.z g.origin.z| + |(k.z : Rat)| * |g.voxel.z|) ∧
+    |(posOfOffset (readGeom (writeHeader fmt g)) k).y - (posOfOffset g k).y|
+        ≤ ε * (|firstPixelOffset g.voxel.y g.minI.y g.origin.y| + |(k.y : Rat)| * |g.voxel.y|) ∧
+    |(posOfOffset (readGeom (writeHeader fmt g)) k).x - (posOfOffset g k).x|
+        ≤ ε * (|firstPixelOffset g.voxel.x g.minI.x g.origin.x| + |(k.x : Rat)| * |g.voxel.x|) :=
+  position_preserved_rel fmt ε hf g k
+
+/-- the hypothesis of `C10_position_preserved_rel` is satisfiable (exact printing, ε = 0) -/
+example : ∀ x : Rat, |id x - x| ≤ 0 * |x| := by intro x; simp
+
+/-- re-normalising the index range with the recomputed origin never changes physical positions: whatever first index
+    `m` the reader chooses, voxel `k` sits at `first pixel offset + k · voxel size`. -/
+theorem C10_renormalise_invariant (h : Header) (f : V3 Rat) (hf : h.fpo = some f) (m k : V3 Int) :
+    posOfOffset (geomWithMin h m) k = ⟨f.z + h.pixel.z * k.z, f.y + h.pixel.y * k.y, f.x + h.pixel.x * k.x⟩ :=
+  renormalise_invariant h f hf m k
+
+example : (writeHeader id ⟨⟨-2, -3, 4⟩, ⟨1, 0, 8⟩, ⟨3, 4, 5⟩, ⟨32 / 5, -7 / 2, 12 / 5⟩⟩).fpo = some ⟨2 / 5, -31 / 2, 112 / 5⟩ := by
+  simp [writeHeader, V3.map, firstPixelOffset]; norm_num
+
+/-- the reader's index range has the announced sizes, and starts at `(0, -⌊ny/2⌋, -⌊nx/2⌋)` -/
+theorem C10_read_range (h : Header) (hy : 0 ≤ h.size.y) (hx : 0 ≤ h.size.x) :
+    V3.zip dimension (readGeom h).minI (readGeom h).maxI = h.size ∧
+      (readGeom h).minI = ⟨0, -(h.size.y / 2), -(h.size.x / 2)⟩ :=
+  ⟨read_range_size h, by simp only [readGeom, geomWithMin]; exact readMin_centred h.size hy hx⟩
+
+/-! ## Values: scaled integer output -/
+
+/-- "scaled integer output, which never overflows the chosen type … for all number types … and scale factors":
+    with the scale factor `find_scale_factor` returns (for any requested scale ≥ 0) the correctly rounded quotient of
+    every element lies in `[minValue, maxValue]`, for every signed/unsigned width.  (`s ≠ 0`: otherwise zeros are
+    written, `C10_all_zero_case`.) -/
+theorem C10_no_overflow (sg : Bool) (b : Nat) (given : Rat) (hg : 0 ≤ given) (xs : List Rat) (x : Rat) (hx : x ∈ xs)
+    (hmax : 0 < (NumT.int sg b).maxValue) (hs : findScaleFactor (.int sg b) given xs ≠ 0) :
+    (NumT.int sg b).minValue ≤ (convertIdeal sg (findScaleFactor (.int sg b) given xs) x : Rat) ∧
+      (convertIdeal sg (findScaleFactor (.int sg b) given xs) x : Rat) ≤ (NumT.int sg b).maxValue := by
+  rw [minValue_eq, maxValue_eq]
+  have := no_overflow sg b given hg xs x hx hmax hs
+  exact ⟨by exact_mod_cast this.1, by exact_mod_cast this.2⟩
+
+/-- the hypotheses hold for `short` output of a mixed-sign array -/
+example : 0 < (NumT.int true 16).maxValue ∧ findScaleFactor (.int true 16) 0 [9453 / 100, -137 / 10] ≠ 0 := by
+  constructor
+  · norm_num [NumT.maxValue]
+  · norm_num [findScaleFactor, tmpScale, dataMax, dataMin, castToFloat, NumT.maxValue, NumT.minValue, NumT.isSigned]
+
+/-- this is where the factor 1.01 is used: any positive scale factor `s'` with `s' ≥ computed/1.01` (the computed one
+    rounded to `float`, or printed with 6 digits and read back) still cannot overflow. -/
+theorem C10_no_overflow_robust (sg : Bool) (b : Nat) (xs : List Rat) (x : Rat) (hx : x ∈ xs)
+    (hmax : 0 < (NumT.int sg b).maxValue) (s' : Rat) (hs' : 0 < s')
+    (hclose : 100 * tmpScale (.int sg b) xs ≤ 101 * s') :
+    (NumT.int sg b).minValue ≤ (convertIdeal sg s' x : Rat) ∧ (convertIdeal sg s' x : Rat) ≤ (NumT.int sg b).maxValue := by
+  rw [minValue_eq, maxValue_eq]
+  have := no_overflow_robust sg b xs x hx hmax s' hs' hclose
+  exact ⟨by exact_mod_cast this.1, by exact_mod_cast this.2⟩
+
+example : (0 : Rat) < 1 / 100 ∧ 100 * tmpScale (.int false 8) [2, 1] ≤ 101 * (1 / 100) := by
+  norm_num [tmpScale, dataMax, NumT.maxValue, NumT.isSigned]
+
+/-- the full statement "the conversion as coded (`stir::round`, which returns `int`, then a cast to the output type)
+    stores the correctly rounded quotient, for every integer type" — false, see `C10_no_overflow_fails_wide_unsigned`. -/
+def C10_conversion_as_coded_all_types : Prop :=
+  ∀ (sg : Bool) (b : Nat) (given : Rat) (xs : List Rat) (x : Rat), 1 ≤ b → 0 ≤ given → x ∈ xs →
+    0 < (NumT.int sg b).maxValue → findScaleFactor (.int sg b) given xs ≠ 0 →
+    convertOne sg b (findScaleFactor (.int sg b) given xs) x =
+      some (convertIdeal sg (findScaleFactor (.int sg b) given xs) x)
+
+/-- … it holds for the types whose `maxValue` is below 2³¹ (signed/unsigned char, short, unsigned short, int); the
+    missing hypothesis for the others is that every quotient stays inside `int`.  (For `int` itself the proof uses the
+    factor 1.01 to keep the quotient away from -2³¹.) -/
+theorem C10_conversion_as_coded_partial (sg : Bool) (b : Nat) (hb : 1 ≤ b) (given : Rat) (hg : 0 ≤ given)
+    (xs : List Rat) (x : Rat) (hx : x ∈ xs) (hmax : 0 < (NumT.int sg b).maxValue)
+    (hfit : (NumT.int sg b).maxValue < 2 ^ 31) (hs : findScaleFactor (.int sg b) given xs ≠ 0) :
+    convertOne sg b (findScaleFactor (.int sg b) given xs) x =
+      some (convertIdeal sg (findScaleFactor (.int sg b) given xs) x) := by
+  apply convertOne_eq_ideal sg b hb given hg xs x hx hmax _ hs
+  rw [maxValue_eq] at hfit
+  exact_mod_cast hfit
+
+example : (NumT.int true 32).maxValue < 2 ^ 31 ∧ (NumT.int false 16).maxValue < 2 ^ 31 := by
+  norm_num [NumT.maxValue]
+
+/-- **the code violates "never overflows" for every unsigned type of ≥ 32 bits** (`unsigned int`, `unsigned long`):
+    with the automatic scale factor the largest voxel's quotient is `maxValue/1.01 ≥ 2³¹` and `stir::round`'s
+    conversion to `int` is undefined (`none`). -/
+theorem C10_no_overflow_fails_wide_unsigned (b : Nat) (hb : 32 ≤ b) (xs : List Rat) (hpos : 0 < dataMax xs)
+    (hs : findScaleFactor (.int false b) 0 xs ≠ 0) :
+    convertOne false b (findScaleFactor (.int false b) 0 xs) (dataMax xs) = none :=
+  wide_unsigned_overflows b hb xs hpos hs
+
+/-- concrete witness (replayed on the implementation by the harness: every `u32` case with automatic scale) -/
+theorem C10_no_overflow_fails_uint32 :
+    convertOne false 32 (findScaleFactor (.int false 32) 0 [1]) 1 = none := by
+  have h := wide_unsigned_overflows 32 (le_refl _) [1] (by norm_num [dataMax])
+    (by norm_num [findScaleFactor, tmpScale, dataMax, castToFloat, NumT.maxValue, NumT.isSigned])
+  simpa [dataMax] using h
+
+theorem C10_conversion_as_coded_all_types_fails : ¬ C10_conversion_as_coded_all_types := by
+  intro h
+  have h1 := h false 32 0 [1] 1 (by norm_num) (le_refl _) (by simp) (by norm_num [NumT.maxValue])
+    (by norm_num [findScaleFactor, tmpScale, dataMax, castToFloat, NumT.maxValue, NumT.isSigned])
+  rw [C10_no_overflow_fails_uint32] at h1
+  cases h1
+
+/-- "its value … within half a quantisation step for scaled integer output": decoding with the scale factor `s`
+    that was used for rounding gives back `x` within `s/2` (any `x` for signed types; `x ≥ 0` is not needed for the
+    inequality itself — for unsigned types negative `x` are stored as 0, `convertIdeal`). -/
+theorem C10_quantisation_bound (s : Rat) (hs : 0 < s) (x : Rat) :
+    |x - decodeInt s (roundHalfAway (x / s))| ≤ s / 2 :=
+  quantisation_bound s hs x
+
+/-- what the reader really does: it multiplies by the scale factor `s'` *printed in the header*; the error is then at
+    most half a step plus `|stored integer| · |s' - s|` (for 6 digits: `≤ s/2 + 5·10⁻⁶|x|`, more than half a step for
+    16- and 32-bit output). -/
+theorem C10_value_roundtrip_bound (s s' : Rat) (hs : 0 < s) (x : Rat) :
+    |x - decodeInt s' (roundHalfAway (x / s))| ≤ s / 2 + |(roundHalfAway (x / s) : Rat)| * |s' - s| :=
+  value_roundtrip_bound s s' hs x
+
+example : (0 : Rat) < 303 / 3276700 := by norm_num
+
+/-- the all-zero case: scale factor 0 is written, all stored numbers are 0, and 0 · 0 = 0 is read back -/
+theorem C10_all_zero_case (sg : Bool) (b : Nat) (xs : List Rat) (h : ∀ x ∈ xs, x = 0) :
+    convertRangeInt sg b 0 xs = (0, xs.map fun _ => some 0) ∧ ∀ x ∈ xs, decodeInt 0 0 = x := by
+  refine ⟨all_zero_case sg b xs h, ?_⟩
+  intro x hx
+  rw [h x hx]
+  simp [decodeInt]
+
+example : ∀ x ∈ [(0 : Rat), 0, 0], x = 0 := by simp
+
+/-! ## Values: floating-point output -/
+
+/-- "exactly for floating-point output": `float` output ignores the requested scale factor, stores the values
+    themselves with scale factor 1, and decoding returns them. -/
+theorem C10_float_exact (given : Rat) (rows : List (List Rat)) :
+    writeData .float32 given rows = (1, .ok (rows.map fun r => r.map Stored.real)) ∧ ∀ v, decodeReal 1 v = v :=
+  ⟨float_write_exact given rows, decodeReal_one⟩
+
+/-- `double` output with a requested scale factor `s ≠ 0` is exact in exact arithmetic (`x/s·s`) -/
+theorem C10_double_exact_given_scale_partial (s : Rat) (hs : s ≠ 0) (x : Rat) : decodeReal s (x / s) = x :=
+  double_exact_given_scale s hs x
+
+/-- **the code violates "exactly for floating-point output" for `double` output with the automatic scale factor**:
+    for every array of `float`s `max/DBL_MAX·1.01` underflows `float`, the scale factor becomes 0 and zeros are
+    written. -/
+theorem C10_double_autoscale_fails (xs : List Rat) (hx : ∀ x ∈ xs, |x| ≤ FLT_MAX) :
+    convertRangeReal .float64 0 xs = (0, xs.map fun _ => 0) :=
+  double_autoscale_writes_zeros xs hx
+
+example : ∀ x ∈ [(1 : Rat), -2], |x| ≤ FLT_MAX := by
+  intro x hx
+  simp at hx
+  rcases hx with rfl | rfl <;> norm_num [FLT_MAX]
+
+/-! ## `write_data` succeeds -/
+
+/-- the row-wise re-computation of the scale factor in `write_data_with_fixed_scale_factor` never rejects a row when
+    the global scale factor is positive (missing for the full statement: the scale factor may be ≤ 0 for unsigned
+    output, see `C10_write_fails_negative_scale`). -/
+theorem C10_write_succeeds_partial (sg : Bool) (b : Nat) (hmax : 0 < (NumT.int sg b).maxValue) (given : Rat) (hg : 0 ≤ given)
+    (rows : List (List Rat)) (hne : ∀ r ∈ rows, r ≠ [])
+    (hpos : 0 < findScaleFactor (.int sg b) given rows.flatten) :
+    ∃ out, (writeData (.int sg b) given rows).2 = .ok out :=
+  write_succeeds_of_pos sg b hmax given hg rows hne hpos
+
+example : 0 < findScaleFactor (.int false 8) 0 ([[1, 2], [3, -4]] : List (List Rat)).flatten := by
+  norm_num [findScaleFactor, tmpScale, dataMax, castToFloat, NumT.maxValue, NumT.isSigned]
+
+/-- **`write_data` fails whenever the scale factor is negative** (and `write_basic_interfile` ignores it) -/
+theorem C10_write_fails_negative_scale (sg : Bool) (b : Nat) (given : Rat) (row : List Rat) (rows : List (List Rat))
+    (hneg : findScaleFactor (.int sg b) given (row :: rows).flatten < 0) :
+    (writeData (.int sg b) given (row :: rows)).2 = .error () :=
+  write_fails_of_neg sg b given row rows hneg
+
+/-- concrete witness: an all-negative image written as `unsigned char` with the automatic scale factor -/
+theorem C10_write_fails_unsigned_all_negative : (writeData (.int false 8) 0 [[-1, -2]]).2 = .error () := by
+  apply write_fails_of_neg
+  norm_num [findScaleFactor, tmpScale, dataMax, castToFloat, NumT.maxValue, NumT.isSigned]
+
+/-! ## Truncated data files -/
+
+/-- "A data file shorter than its header announces is reported as an error rather than returned as an image":
+    at the level of the model of `read_data` (stream semantics assumed). -/
+theorem C10_truncated_file_rejected (offset sizeAll bytes fileLen : Nat) (h : fileLen < offset + sizeAll * bytes) :
+    readDataset offset sizeAll bytes fileLen = .error () :=
+  truncated_file_rejected offset sizeAll bytes fileLen h
+
+theorem C10_complete_file_accepted (offset sizeAll bytes fileLen : Nat) (h : offset + sizeAll * bytes ≤ fileLen) :
+    readDataset offset sizeAll bytes fileLen = .ok () :=
+  complete_file_accepted offset sizeAll bytes fileLen h
+
+/-! ## Exam information -/
+
+/-- the full statement "every exam information survives" — false, see the two `…_fails` theorems below -/
+def C10_exam_roundtrip_all : Prop :=
+  ∀ e : Exam, e.orientation ≤ 3 → e.rotation ≤ 5 → (∀ p ∈ e.frames, p.2 - p.1 > 0) →
+    readExam (writeExam e) none = e.normalised
+
+/-- "The exam information that the format stores (modality, patient position, time frames, radionuclide, energy window,
+    calibration factor) survives the round trip" — for every exam information that is `Storable` (no decubitus patient
+    rotation, no energy window with lower threshold 0, time frames of positive duration); radionuclide not in the data
+    base (a data-base hit returns the data-base record instead). -/
+theorem C10_exam_roundtrip_partial (e : Exam) (h : e.Storable) : readExam (writeExam e) none = e.normalised :=
+  exam_roundtrip e h
+
+example : Exam.Storable ⟨1, 1, 1, 5 / 2, 425, 650, [(41 / 2, 45), (50, 373 / 4)], "Verif-7", 2469 / 2, 1 / 2⟩ := by
+  constructor <;> simp
+  · norm_num
+  · norm_num
+
+/-- **patient rotations `right`/`left` are read back as `other`** -/
+theorem C10_exam_rotation_fails (e : Exam) (h : e.rotation = 2 ∨ e.rotation = 3) (db : Option (Rat × Rat)) :
+    (readExam (writeExam e) db).rotation = 4 :=
+  rotation_lost e h db
+
+/-- **an energy window `[0, high]` is written but read back as unset** -/
+theorem C10_exam_window_fails (e : Exam) (hh : e.highThres > 0) (hl : e.lowThres = 0) (db : Option (Rat × Rat)) :
+    (writeExam e).window = some (0, e.highThres) ∧
+      (readExam (writeExam e) db).lowThres = -1 ∧ (readExam (writeExam e) db).highThres = -1 :=
+  window_lost e hh hl db
+
+theorem C10_exam_roundtrip_all_fails : ¬ C10_exam_roundtrip_all := by
+  intro h
+  have h1 := h ⟨1, 0, 3, -1, -1, -1, [], "", -1, -1⟩ (by norm_num) (by norm_num) (by simp)
+  have h2 := rotation_lost ⟨1, 0, 3, -1, -1, -1, [], "", -1, -1⟩ (Or.inr rfl) none
+  rw [h1] at h2
+  simp [Exam.normalised] at h2
+
 end StirVerif.C10
